@@ -30,6 +30,8 @@ def levels(tier):
              "alphabet": ["we", "addprefix", "moveprefix", "delwe"], "defaults": ["never"]},
             {"name": "long-n2", "n": 2, "prelude": [["we", [[0, 3]]]], "alphabet": ["page", "links"], "links_batch": 1, "defaults": ["never"],
              "pools": LONGPOOLS},
+            {"name": "batch2", "n": 1, "prelude": [["we", [[0, 3]]]], "alphabet": ["batch"], "batch_sources": 2, "batch_targets": 1,
+             "defaults": ["never"], "pool": POOL[:3], "yield_frequencies": [50, 1]},
         ]
     return [
         {"name": "long-n3", "n": 3, "prelude": [["we", [[0, 3]]]], "alphabet": ["page", "links", "we"], "links_batch": 1, "defaults": ["never", "domain"],
